@@ -337,6 +337,8 @@ pub struct QueryCfg {
     pub op_mask: u32,
     /// C22 bias: make most edges folds with count filters.
     pub bias_fold_count: bool,
+    /// C04 / C05 bias: many tags and tag operands (dynamic hints, imported tags).
+    pub bias_tags: bool,
 }
 
 impl QueryCfg {
@@ -368,6 +370,7 @@ impl QueryCfg {
                 if all { 0xFFFFF } else { m }
             },
             bias_fold_count,
+            bias_tags: false,
         }
     }
     pub fn simplest() -> QueryCfg {
@@ -386,6 +389,7 @@ impl QueryCfg {
             f_list_ordering: false,
             op_mask: 0,
             bias_fold_count: false,
+            bias_tags: false,
         }
     }
 }
@@ -481,7 +485,8 @@ impl<'a> Gen<'a> {
             return Some(QFilter { op, operand: Operand::None });
         }
         // Tag operand?
-        if self.cfg.f_tags && self.t.chance(1, 3) {
+        let tag_operand = if self.cfg.bias_tags { self.t.chance(3, 4) } else { self.t.chance(1, 3) };
+        if self.cfg.f_tags && tag_operand {
             let compat: Vec<usize> = self
                 .tags
                 .iter()
@@ -570,7 +575,8 @@ impl<'a> Gen<'a> {
             }
         }
         let mut tags = vec![];
-        if self.cfg.f_tags && self.t.chance(1, 3) {
+        let want_tag = if self.cfg.bias_tags { self.t.chance(2, 3) } else { self.t.chance(1, 3) };
+        if self.cfg.f_tags && want_tag {
             let tname = self.fresh("t");
             self.tags.push(TagInfo {
                 name: tname.clone(),
